@@ -8,6 +8,7 @@ import (
 	"strings"
 
 	jet "github.com/CloudyKit/jet/v6"
+	"github.com/CloudyKit/jet/v6/loaders/multi"
 
 	"verif/sim"
 )
@@ -223,6 +224,24 @@ func RunC15(env *sim.Env) {
 		c.setFile = func(p, content string) { mem.Set(p, content) }
 	}
 	c.loader.OnCall = func(cl Call) { c.checkPath("Loader."+cl.Seam, cl.Path) }
+	// loader faults: what the Set hands to its loader must be canonical also on the paths it takes when
+	// the loader fails (retries, fall-backs, probes made to tell "missing" from "broken")
+	nArmed := 0
+	if t.Choose(3) == 2 {
+		c.loader.PanicInExists = t.Choose(2) == 1
+		n := t.Range(1, 3)
+		for i := 0; i < n; i++ {
+			p := c15Targets[t.Choose(len(c15Targets)-1)]
+			c.loader.Arm(p, []int{FaultTransientMiss, FaultOpenError, FaultReadError, FaultPanic}[t.Choose(4)], t.Choose(8))
+			nArmed++
+		}
+		env.Stat("probe:loader_faults_armed", 1)
+	}
+	var setLoader jet.Loader = c.loader
+	if t.Choose(5) == 4 {
+		setLoader = multi.NewLoader(c.loader) // the Set talks to a multi loader; the seam is its only member
+		env.Stat("probe:set_over_multi_loader", 1)
+	}
 	for _, p := range c15Targets[:len(c15Targets)-1] {
 		c.setFile(p, targetContent(p))
 	}
@@ -235,7 +254,7 @@ func RunC15(env *sim.Env) {
 	if t.Choose(4) == 3 {
 		opts = append(opts, jet.InDevelopmentMode())
 	}
-	c.set = jet.NewSet(c.loader, opts...)
+	c.set = jet.NewSet(setLoader, opts...)
 
 	kinds := []string{"GetTemplate", "Parse", "extends", "import", "include", "include-computed", "exec", "includeIfExists"}
 	nOps := t.Range(3, 10)
@@ -274,6 +293,7 @@ func RunC15(env *sim.Env) {
 		c.allowed[refPath] = true
 		c.curOp = fmt.Sprintf("%s %q from referrer %s (extensions %q, expected target %s)", kind, name, refPath, c.exts, expected)
 		ct0 := len(c.ctrace)
+		firedBefore, panicsBefore := sumFired(c.loader), c.loader.Fired[FaultPanic]
 		var out bytes.Buffer
 		var err error
 		var tmpl *jet.Template
@@ -346,6 +366,13 @@ func RunC15(env *sim.Env) {
 		hist = append(hist, fmt.Sprintf("%s(%q@%s)=%s", kind, name, refDir, res))
 		env.Event("%s -> %s out=%q", c.curOp, res, out.String())
 		env.Stat("probe:reference_kind_"+kind, 1)
+		faulted := sumFired(c.loader) > firedBefore
+		if faulted {
+			env.Stat("fault:loader_fault_during_reference", 1)
+		}
+		if pc != nil && c.loader.Fired[FaultPanic] > panicsBefore {
+			pc, err = nil, fmt.Errorf("the loader's panic came out of the call")
+		}
 		if pc != nil {
 			env.Violate("no-panic", kind+":panic", "%s panicked: %v", c.curOp, pc)
 			continue
@@ -365,7 +392,7 @@ func RunC15(env *sim.Env) {
 				}
 			}
 		}
-		if exists && kind != "exec" && err == nil && kind != "Parse" {
+		if exists && kind != "exec" && err == nil && kind != "Parse" && !faulted {
 			want := "<T:"
 			if kind == "import" {
 				want = "<B:"
@@ -374,7 +401,7 @@ func RunC15(env *sim.Env) {
 				env.Violate("resolution", kind+":target-not-rendered", "%s: the canonical target exists but was not rendered: %q", c.curOp, out.String())
 			}
 		}
-		if exists && err != nil && kind != "Parse" {
+		if exists && err != nil && kind != "Parse" && !faulted {
 			env.Violate("resolution", kind+":target-not-found", "%s: the canonical target exists but the reference failed: %v", c.curOp, err)
 		}
 	}
